@@ -166,12 +166,19 @@ func (st *Stack) reloadOnce(names []string, reuseOpen bool) error {
 	// success. Swap.
 	st.stack = newTables
 	opened = nil
+	listed := make(map[string]bool, len(names))
+	for _, name := range names {
+		listed[name] = true
+	}
 	for _, old := range cur {
 		old.Close()
 
 		// On windows, we may only be able to close after
-		// closing file handles.
-		os.Remove(filepath.Join(st.reftableDir, old.Name()))
+		// closing file handles. A reader that was reopened rather
+		// than reused belongs to a table that is still listed.
+		if !listed[old.Name()] {
+			os.Remove(filepath.Join(st.reftableDir, old.Name()))
+		}
 	}
 	return nil
 }
